@@ -148,7 +148,23 @@ func (c *Ctx) Finish(level string, cov Coverage, assumptions []string) int {
 		WallS: time.Since(c.Start).Seconds(), Violations: len(c.violations), Known: c.known, Notes: c.notes}
 	dir := filepath.Join(Root, "evidence")
 	_ = os.MkdirAll(dir, 0o755)
-	b, _ := json.MarshalIndent(ev, "", " ")
+	b, merr := json.MarshalIndent(ev, "", " ")
+	if merr != nil {
+		// a non-finite float somewhere in the free-form part: render that part as text
+		for k, v := range ev.Coverage {
+			if _, err := json.Marshal(v); err != nil {
+				ev.Coverage[k] = fmt.Sprint(v)
+			}
+		}
+		if _, isList := ev.Coverage["samples"].([]interface{}); !isList {
+			ev.Coverage["samples"] = []interface{}{ev.Coverage["samples"]}
+		}
+		b, merr = json.MarshalIndent(ev, "", " ")
+		if merr != nil {
+			fmt.Fprintln(c.Out, "cannot encode evidence:", merr)
+			return 2
+		}
+	}
 	if err := os.WriteFile(filepath.Join(dir, c.ID+".json"), b, 0o644); err != nil {
 		fmt.Fprintln(c.Out, "cannot write evidence:", err)
 		return 2
